@@ -407,6 +407,20 @@ def c04(ck):
                    "faults": {"failspots": ["StopProcess"], "actions": [{"at": {"hook": "enumerate:done"}, "do": "exit", "slot": k % (2 + k % 3)}]}})
     runs2 = dumps.run_scenarios(ck, ex, "c04_exit")
     evs += [e for r in runs2 for d in r["dumps"] for e in th_proj.c04_events(r, d)]
+    # snapshot consistency under running threads: spinners, process not group-stopped (threads are stopped one by one by attach)
+    sp = []
+    for k in range(4 if quick else 60):
+        n = 1 + k % 3
+        threads = [{"mode": "spin", "stack_pages": 1, "sp_off": 2048, "spin_word": f"cnt{i}"} for i in range(n)] + [{"mode": "pause", "stack_pages": 1, "sp_off": 900}]
+        regions = [{"name": f"cnt{i}", "len": 8, "lead": 8 * i} for i in range(n)]
+        sp.append({"id": f"spin/{k}", "target": {"threads": threads, "regions": regions}, "want_stacks": True,
+                   "writer": {"blamed": "main", "app_memory": [{"addr": {"region": f"cnt{i}"}, "len": 8} for i in range(n)]},
+                   "faults": {"failspots": ["StopProcess"] if k % 2 == 0 else []}})
+    runs3 = dumps.run_scenarios(ck, sp, "c04_spin")
+    evs += [e for r in runs3 for d in r["dumps"] for e in th_proj.c04_spin_events(r, d)]
+    evs += [e for r in runs for d in r["dumps"] for e in th_proj.c04_spin_events(r, d) if e["ev"] == "c04o"]
+    mc = core.mc_or_die("Ptrace", "MC_Ptrace", workers=6, timeout=2400)
+    ck.add_mc(mc, "tracer/kernel/target model: invariants C04_NoRunBetweenCaptures, C04_ListedOnce, C04_SandboxOmitted (with the C03 invariants) for every interleaving of 3 threads, signals, exits and failures")
     v = _judge_threads(ck, evs, "c04", "contexts of listed threads of 1..64-thread targets vs registers read by the harness's own PTRACE_GETREGS/GETFPREGS/PEEKUSER; completeness of the list incl. sandbox (rsp==0) threads and threads exiting between enumeration and attach")
     if v["counts"]["c04t"] == 0:
         raise core.ToolError("vacuous: no thread context was compared")
@@ -603,3 +617,106 @@ def dumps_resolve(spec, report):
     if "region_map" in spec:
         return report["regions"][spec["region_map"]]["map_start"] + off
     raise KeyError(spec)
+
+
+# ------------------------------------------------------------------------------------------ C03
+def _c03_event(run):
+    scn, report, end = run["scn"], run["report"], run["end"]
+    after = (end or {}).get("after") or {"tasks": [], "counters": []}
+    tasks = {t["tid"]: t for t in after["tasks"]}
+    counters = {c["slot"]: c for c in after["counters"]}
+    sends = [s for d in run["dumps"] for s in d.get("steps", []) if s.get("k") == "send" and s.get("rc") == 0]
+    exits = {s["slot"] for d in run["dumps"] for s in d.get("steps", []) if s.get("k") == "exit" and s.get("gone")}
+    ths = []
+    for slot, t in enumerate(report["threads"]):
+        task = tasks.get(t["tid"])
+        c = counters.get(slot, {})
+        ths.append({"slot": slot, "alive": task is not None, "state": (task or {}).get("state", "?"), "tracer": (task or {}).get("tracer", 0),
+                    "heartbeat": t["mode"] == "heartbeat", "hbAdvancing": c.get("heartbeat1", 0) > c.get("heartbeat0", 0),
+                    "sentRt": sum(1 for s in sends if s["slot"] == slot and s["sig"] == "rt"), "gotRt": c.get("rt", 0),
+                    "sentStd": sum(1 for s in sends if s["slot"] == slot and s["sig"] == "usr1"), "gotStd": c.get("usr1", 0),
+                    "exitedByPlan": slot in exits})
+    main = tasks.get(report["pid"])
+    ths.append({"slot": -1, "alive": main is not None, "state": (main or {}).get("state", "?"), "tracer": (main or {}).get("tracer", 0), "heartbeat": False,
+                "hbAdvancing": False, "sentRt": 0, "gotRt": 0, "sentStd": 0, "gotStd": 0, "exitedByPlan": False})
+    outcomes = [d.get("outcome") for d in run["dumps"]]
+    exp = scn.get("expect", {}).get("outcome", "ok")
+    return {"ev": "c03", "origin": run["id"], "worker": (end or {}).get("worker", "?"), "threads": ths, "nsent": len(sends),
+            "outcomes": outcomes, "outcomeExpected": all(o == exp for o in outcomes) and len(outcomes) >= 1}
+
+
+def _c03_scenarios(quick, seed):
+    import random
+    rnd = random.Random(seed)
+    tgt = {"shared": True, "threads": [{"mode": "heartbeat"}, {"mode": "heartbeat"}, {"mode": "pause", "stack_pages": 2, "sp_off": 6000}],
+           "regions": [{"name": "app0", "len": 256}]}
+    scns = []
+    points = [("begin", {"hook": "dump:begin"}), ("attach:before", {"hook": "attach:before", "slot": 0}), ("attach:ok", {"hook": "attach:ok", "slot": 0}),
+              ("attach:ok/other", {"hook": "attach:ok", "slot": 1}), ("suspended", {"hook": "suspended"}), ("streams_done", {"hook": "dump:streams_done"}),
+              ("resume:begin", {"hook": "resume:begin"}), ("drop:begin", {"hook": "drop:begin"}), ("dest0", {"dest_call": 0}), ("dest20", {"dest_call": 20}), ("dest70", {"dest_call": 70})]
+    def mk(name, acts, stopfail=False, **kw):
+        f = {"actions": acts}
+        if stopfail:
+            f["failspots"] = ["StopProcess"]
+        f.update(kw.pop("faults", {}))
+        s = {"id": name, "target": tgt, "writer": kw.pop("writer", {"blamed": "main", "app_memory": [{"addr": {"region": "app0"}, "len": 256}]}), "faults": f, "observe": True}
+        s.update(kw)
+        return s
+    # one signal at every point x {queued, standard} x {process group-stopped, not stopped}
+    for pname, at in points:
+        for sig in ("rt", "usr1"):
+            for sf in (False, True):
+                if quick and sig == "usr1" and sf:
+                    continue
+                scns.append(mk(f"sig/{pname}/{sig}/{'nostop' if sf else 'stop'}", [{"at": at, "do": "signal", "sig": sig, "to_slot": 0}], stopfail=sf))
+    # bursts: several queued signals to both threads at several points
+    for k in range(3 if quick else 40):
+        acts = [{"at": rnd.choice(points)[1], "do": "signal", "sig": rnd.choice(["rt", "rt", "usr1"]), "to_slot": rnd.randrange(2)} for _ in range(rnd.randrange(2, 7))]
+        # at most one action per hook point is run by the plan per dump; that is fine
+        scns.append(mk(f"burst/{k}", acts, stopfail=rnd.random() < 0.5))
+    # failures at any stage, with a signal in flight
+    for k in ([0, 3, 40, 80] if quick else list(range(0, 93, 4))):
+        scns.append(mk(f"destfail/{k}", [{"at": {"hook": "suspended"}, "do": "signal", "sig": "rt", "to_slot": 1}], faults={"dest_fail_at": k}, expect={"outcome": "err"}))
+    scns.append(mk("hard/app-memory", [{"at": {"hook": "attach:ok", "slot": 1}, "do": "signal", "sig": "rt", "to_slot": 1}],
+                   writer={"blamed": "main", "app_memory": [{"addr": "0x10", "len": 64}]}, expect={"outcome": "err"}))
+    scns.append(mk("hard/blamed-absent", [{"at": {"hook": "suspended"}, "do": "signal", "sig": "rt", "to_slot": 0}], writer={"blamed": "absent"}, expect={"outcome": "err"}))
+    # a thread exits between enumeration and attach (process not group-stopped), with signals to the survivor
+    for slot in (0, 1):
+        scns.append(mk(f"exit/{slot}", [{"at": {"hook": "enumerate:done"}, "do": "exit", "slot": slot}, {"at": {"hook": "suspended"}, "do": "signal", "sig": "rt", "to_slot": 1 - slot}], stopfail=True))
+    # two dumps in a row on one writer, signals in between and during
+    scns.append(dict(mk("twice", [{"at": {"hook": "suspended"}, "do": "signal", "sig": "rt", "to_slot": 0}]), history=[{"op": "dump"}, {"op": "dump", "actions": [{"at": {"hook": "attach:ok", "slot": 1}, "do": "signal", "sig": "rt", "to_slot": 1}]}]))
+    return scns
+
+
+def c03(ck):
+    quick = ck.tier == "quick"
+    util.mc_design(ck, "Ptrace", "MC_Ptrace", "tracer/kernel/target model: 3 threads (one sandbox thread), a queued signal per thread sent at any moment, thread exit, stop_process succeeding/failing/timing out, a hard failure at any stream step; invariants NoneLeftAttached, NoDup, NoLoss, C04 schedule invariants; liveness: every thread eventually runs with all signals delivered",
+                   workers=6, timeout=2400)
+    # (a) the attach race under a signal flood, on the public suspend_thread / resume_thread
+    fout = os.path.join(ck.work, "flood.ndjson")
+    core.drive("flood", fout, seed=ck.seed, random=3000 if quick else 20000, extra=["--rounds", "2" if quick else "8", "--workdir", ck.work], timeout=2400)
+    # (b) environment schedules around full dumps
+    runs = dumps.run_scenarios(ck, _c03_scenarios(quick, ck.seed), "c03")
+    evs = core.read_ndjson(fout) + [_c03_event(r) for r in runs]
+    out = os.path.join(ck.work, "c03.ndjson")
+    core.export_lines(evs, out)
+
+    def describe(hist, tag):
+        e = hist[-1]
+        if e["ev"] == "flood":
+            return ({"tag": tag}, f"{e['cycles']} suspend/resume cycles under a flood of {e['sent']} queued signals: delivered {e['delivered']} (undecodable stops: {e['waitErr']}, re-injections: {e['reinjected']}), final state {e['state']} tracer {e['tracer']}")
+        bad = [t for t in e["threads"] if t["alive"] and (t["tracer"] != 0 or t["state"] in ("T", "t") or (t["heartbeat"] and not t["hbAdvancing"]) or t["gotRt"] != t["sentRt"])]
+        return ({"tag": tag}, f"after schedule {e['origin']} (dump outcomes {e['outcomes']}, worker {e['worker']}): threads {json.dumps(bad)[:400]}")
+    v = util.judge_batch(ck, "Trace_Ptrace", out, "end state of the target (/proc State, TracerPid, heartbeats, handler counters) after suspend/resume cycles under a queued-signal flood and after dumps under environment schedules: a signal at each hook point / destination call, bursts, destination failures, hard errors, thread exits, repeated dumps",
+                         "Ptrace", describe, traces=len(evs))
+    if v.get("signals", 0) == 0:
+        raise core.ToolError("vacuous: no signal was sent")
+    ck.cov["distinct_nontrivial"] = len(evs)
+    ck.cov["signals_sent"] = v.get("signals", 0)
+    ck.cov["rule"] = "one case = one environment schedule around one dump request (or one flood round of thousands of attach cycles); schedules are enumerated (point x signal kind x stop mode, failure index) plus seeded bursts"
+    ck.cov["decided_by"] = {"end-state predicate (attached/stopped/running, sent vs delivered)": "spec", "what was delivered": "the target's own handler counters in a shared page; /proc"}
+    ck.sample({"c03": evs[5]})
+    ck.assumptions += ["signals are placed from hook callbacks that run synchronously in the dumping thread; delivery is observed after the target is quiescent (nothing pending)",
+                       "standard (non-queued) signals may coalesce: at least one and at most the number sent must be delivered",
+                       "the kernel model of Ptrace.tla is an abstraction; only end-state violations are reported, never a disagreement with the kernel model"]
+    return runs
